@@ -6,10 +6,12 @@ from fractions import Fraction
 
 import numpy as np
 
+from . import methods as MM
 from .common import Disagreement, drive, q, qs, parse_qs, ROOT
 
 PROP_MODULE = 'PbVerif.Props.C12'
-RULE = ('cases = (x kind, N, num_knots, degree, weight pattern) and (1-D / 2-D fitter reused over a history of (num_knots, degree) requests, half of the steps keeping the number of basis functions); three-way comparison real basis / exact-rational model on the real '
+RULE = ('cases = (x kind, x-axis magnitude kind (methods.X_MAGNITUDES: scales 1e-30 ... 1e30, huge offsets with a narrow range, negative '
+        'ranges; every comparison is relative to the scale of the compared quantity), N, num_knots, degree, weight pattern) and (1-D / 2-D fitter reused over a history of (num_knots, degree) requests, half of the steps keeping the number of basis functions); three-way comparison real basis / exact-rational model on the real '
         'knots / scipy BSpline; non-trivial = degree >= 1 or points on knots; distinct by canonical tuple')
 ASSUMPTIONS = [
     'floating-point de Boor recursion differs from the exact rational one by at most 64*eps*(degree+1) per entry',
@@ -128,15 +130,24 @@ def correspond(ctx):
         if r:
             dis.append(Disagreement('c12.corpus', d['signature'], f'corpus {os.path.basename(f)}: {r}', d['replay'], True))
     kinds = ['uniform', 'random', 'clustered', 'repeats', 'dyadic']
+    mags = MM.x_magnitude_cycle(ctx.seed, MM.X_MAGNITUDE_UNUSUAL)
     combos = []
     for deg in range(0, 7):
         for nk in ([2, 3, 5, 10] + ([40, 200] if ctx.thorough else [25])):
             for _ in range(2 if ctx.thorough else 1):
                 n = int(rng.choice([2, 3, 5, 12, 40] + ([300] if ctx.thorough else [])))
-                combos.append((deg, nk, n, kinds[int(rng.integers(0, len(kinds)))]))
+                kind = kinds[int(rng.integers(0, len(kinds)))]
+                combos.append((deg, nk, n, kind, '1'))
+                # the same kind of case on an axis of another magnitude (round-robin: every magnitude kind is used in every run)
+                combos.append((deg, nk, int(rng.choice([3, 5, 12, 40])), kinds[int(rng.integers(0, len(kinds)))], next(mags)))
     lines, metas = [], []
-    for deg, nk, n, kind in combos:
+    for deg, nk, n, kind, mag in combos:
         x = x_of(rng, n, kind)
+        if mag != '1':
+            x = MM.x_magnitude(x, mag)[0]
+            if len(np.unique(x)) < 2:
+                continue
+        ctx.count('x-magnitude:' + mag)
         try:
             knots = su._spline_knots(x, nk, deg, True)
         except Exception as e:
@@ -148,7 +159,7 @@ def correspond(ctx):
         if rng.random() < 0.3:
             x = x[rng.permutation(len(x))]   # the kernels must not rely on increasing x
         nb = len(knots) - deg - 1
-        meta = {'deg': deg, 'num_knots': nk, 'kind': kind, 'x': x.tolist()}
+        meta = {'deg': deg, 'num_knots': nk, 'kind': kind, 'x_magnitude': mag, 'x': x.tolist()}
         try:
             basis = su.SplineBasis(x, nk, deg)
             if not np.array_equal(basis.knots, knots):
@@ -158,7 +169,7 @@ def correspond(ctx):
             dis.append(Disagreement('c12.raises', 'raises:basis', f'SplineBasis raised {type(e).__name__}: {e}', meta, True))
             continue
         ctx.case(('basis', deg, nk, kind, tuple(x.tolist())), nontrivial=deg >= 1,
-                 sample={'degree': deg, 'num_knots': nk, 'N': len(x), 'x': kind} if len(x) <= 8 else None)
+                 sample={'degree': deg, 'num_knots': nk, 'N': len(x), 'x': kind, 'x_magnitude': mag} if len(x) <= 8 else None)
         ctx.count('degree:%d' % deg)
         ctx.count('x:' + kind)
         tol = 64 * EPS * (deg + 1)
@@ -180,7 +191,7 @@ def correspond(ctx):
             if not np.allclose(B, ref, rtol=0, atol=tol * 8):
                 fails.append(f'differs from scipy BSpline by {float(np.max(np.abs(B - ref))):.3g}')
         for fl in fails:
-            dis.append(Disagreement('c12.basis', f'basis:deg={deg}', f'design matrix (degree {deg}, {nk} knots, {kind} x): {fl}',
+            dis.append(Disagreement('c12.basis', f'basis:deg={deg}', f'design matrix (degree {deg}, {nk} knots, {kind} x on the axis {mag}): {fl}',
                                     dict(meta, check='basis'), True))
         # other construction paths
         for nm, fn in (('slow', su._slow_design_matrix),):
@@ -258,6 +269,11 @@ def correspond(ctx):
     for two_d, hist in fitter_histories(ctx, rng):
         n = int(rng.choice([30, 45]))
         x = x_of(rng, n, ['uniform', 'random'][int(rng.integers(0, 2))])
+        hmag = '1'
+        if rng.random() < 0.5:
+            hmag = next(mags)
+            x = MM.x_magnitude(x, hmag)[0]
+        ctx.count('fitter-history:x-magnitude:' + hmag)
         x = np.unique(x)
         if rng.random() < 0.25:
             x = x[::-1].copy()
@@ -296,7 +312,9 @@ def correspond(ctx):
                                         dict(meta, check='basis'), False))
         elif kind == 'knots':
             mk = np.array([float(v) for v in parse_qs(r)])
-            rngx = max(1.0, float(np.ptp(real)))
+            # relative to the magnitude of the knots themselves (an absolute floor would make the comparison vacuous on a 1e-30 axis
+            # and impossible on 1.7e9 + [0, 1e3])
+            rngx = float(np.max(np.abs(real)))
             if len(mk) != len(real) or not np.allclose(mk, real, rtol=0, atol=16 * EPS * rngx * (len(real))):
                 dis.append(Disagreement('c12.model', 'model:knots', f'knot vector differs from the equally spaced model', dict(meta, check='knots'),
                                         property_level=True))
